@@ -89,6 +89,17 @@ Definition probe (j : json) (p : path) : ans :=
               end
   end.
 
+(* property trees are std::maps: no key occurs twice in an object, at any depth *)
+Fixpoint wfT (t : tree) : Prop :=
+  match t with
+  | Leaf _ => True
+  | Obj kvs =>
+      NoDup (map fst kvs) /\
+      (fix all (l : list (key * tree)) : Prop :=
+         match l with [] => True | kv :: l' => wfT (snd kv) /\ all l' end) kvs
+  end.
+Definition wfj (j : json) : Prop := match j with None => True | Some t => wfT t end.
+
 (* ---- the layering of device.cpp, M = the device's mode ---- *)
 
 (* entries of X for `object`: X/<object>, overridden by X/<object>/modes/<M>, overridden by
